@@ -30,6 +30,8 @@ pub struct Observed {
     pub registers: BTreeMap<String, Vec<Multi>>,
     pub conv_asked: u64,
     pub conv_ok: u64,
+    /// (range index, accounts a converted report of that range lists with a non-zero amount)
+    pub conv_listed: Vec<(usize, Vec<String>)>,
 }
 
 pub fn gen_report_ledger(rng: &mut Rng, min_txn: usize, max_txn: usize) -> Option<(Ledger, Vec<(usize, Outcome)>)> {
@@ -288,6 +290,7 @@ impl Check for C04 {
                     }
                     let mut balances = Vec::new();
                     let (mut conv_asked, mut conv_ok) = (0u64, 0u64);
+                    let mut conv_listed: Vec<(usize, Vec<String>)> = Vec::new();
                     for (k, r) in ranges2.iter().enumerate() {
                         // one range in three is first asked for with a conversion (result unused): the
                         // plain answer that follows on the same Ledger must not depend on that history
@@ -303,8 +306,17 @@ impl Check for C04 {
                                     date_range: query::DateRange { start: r.0, end: r.1 },
                                 };
                                 conv_asked += 1;
-                                if l.balance(rctx, &cq).is_ok() {
+                                if let Ok(b) = l.balance(rctx, &cq) {
                                     conv_ok += 1;
+                                    // which accounts the converted report of this range lists with a non-zero amount
+                                    let listed: Vec<String> = b
+                                        .into_owned()
+                                        .into_vec()
+                                        .into_iter()
+                                        .filter(|(_, amt)| ops::amount_pairs(amt).iter().any(|(_, v)| !v.is_zero()))
+                                        .map(|(a, _)| a.as_str().to_string())
+                                        .collect();
+                                    conv_listed.push((k, listed));
                                 }
                             }
                         }
@@ -327,7 +339,7 @@ impl Check for C04 {
                         let ps = l.postings(rctx, &query::PostingQuery { account: Some(a.clone()) });
                         registers.insert(a.clone(), ps.iter().map(|p| to_multi(&p.amount)).collect::<Vec<_>>());
                     }
-                    Ok(Observed { txns, balances, registers, conv_asked, conv_ok })
+                    Ok(Observed { txns, balances, registers, conv_asked, conv_ok, conv_listed })
                 }
             })
         });
@@ -374,6 +386,28 @@ impl Check for C04 {
         if written != stored {
             rec.violation("transaction-dates-differ", "stored", "stored transaction dates differ from the written ones", witness(json!({"written": written.iter().map(|d| d.to_string()).collect::<Vec<_>>(), "stored": stored.iter().map(|d| d.to_string()).collect::<Vec<_>>()})));
             return;
+        }
+        // a converted report of a range cannot list an account that has no posting dated in it
+        for (k, listed) in &obs.conv_listed {
+            let r = ranges[*k];
+            let mut has: BTreeSet<&str> = BTreeSet::new();
+            for (d, ps) in &obs.txns {
+                if r.0.map(|s| *d >= s).unwrap_or(true) && r.1.map(|e| *d < e).unwrap_or(true) {
+                    for (a, _) in ps {
+                        has.insert(a.as_str());
+                    }
+                }
+            }
+            if let Some(a) = listed.iter().find(|a| !has.contains(a.as_str())) {
+                rec.violation(
+                    "converted-range-lists-account-without-postings",
+                    &range_class(r, &dates),
+                    &format!("a converted balance over {} lists {} although no transaction dated in the range posts to it", fmt_range(r), a),
+                    witness(json!({"range": fmt_range(r), "listed": listed})),
+                );
+                return;
+            }
+            rec.count("converted-range:accounts-within-range");
         }
         // (a) every range: balance == sum of the register in [start, end)
         let mut by_range: Vec<Option<Bal>> = Vec::new();
